@@ -222,7 +222,7 @@ GROUPS = {
         ],
     },
     "retry": {
-        "import": "Haiway.Bridge.Retry", "open": "Haiway Haiway.MiniPy Haiway.Bridge.Retry",
+        "import": "Haiway.Bridge.RetryEndToEnd", "open": "Haiway Haiway.MiniPy Haiway.Bridge.Retry",
         "defs": {
             **{name: Target("src/haiway/helpers/retries.py", None, f"{outer}.wrapped", ["args", "kwargs"], {},
                             {("ctx", "log_error"): (170, ["*"])},
@@ -242,11 +242,12 @@ GROUPS = {
                  "      by_cases hal : a < limit <;> cases d <;> retry_eval"),
                 (f"retry_{tag}_refines", [base + "Body", base], f"RetryRefines {base}",
                  "exact refines_of_step (iAtt := {%sBody.$counter}) (by decide) (fun _ => rfl) retry_%s_step" % (base, tag)),
+                (f"retry_{tag}_c14", [base + "Body", base], f"WrapperProps {base}", f"exact props_of_refines retry_{tag}_refines"),
             )],
         ],
     },
     "cache": {
-        "import": "Haiway.Bridge.Cache", "open": "Haiway Haiway.MiniPy Haiway.Bridge.Cache",
+        "import": "Haiway.Bridge.CacheEndToEnd", "open": "Haiway Haiway.MiniPy Haiway.Bridge.Cache",
         "defs": {
             "gSyncCall": Target("src/haiway/helpers/caching.py", "_SyncCache", "__call__", ["args", "kwargs"], {"_cached": 1, "_limit": 2},
                                 {("self", "_function"): (180, ["$args", "$kwargs"]), ("self", "_next_expire_time"): (181, [])},
@@ -282,10 +283,18 @@ GROUPS = {
              .replace("{HOK}", "").replace("{HEOK}", "skip")),
             ("async_method_refines", ["gAsyncMethod"], "AsyncCallRefines gAsyncMethod", _CACHE_SCRIPT.replace("{DEF}", "gAsyncMethod").replace("{KD}", ".async")
              .replace("{HOK}", "").replace("{HEOK}", "skip")),
+            ("sync_call_c12", ["gSyncCall"], "HistoryProps .sync false gSyncCall",
+             "exact historyProps_of_step (stepRefines_sync sync_call_refines)"),
+            ("sync_method_c12", ["gSyncMethod"], "HistoryProps .sync false gSyncMethod",
+             "exact historyProps_of_step (stepRefines_sync sync_method_refines)"),
+            ("async_call_c12", ["gAsyncCall"], "HistoryProps .async true gAsyncCall",
+             "exact historyProps_of_step (stepRefines_async async_call_refines)"),
+            ("async_method_c12", ["gAsyncMethod"], "HistoryProps .async true gAsyncMethod",
+             "exact historyProps_of_step (stepRefines_async async_method_refines)"),
         ],
     },
     "throttle": {
-        "import": "Haiway.Bridge.Throttle", "open": "Haiway Haiway.MiniPy Haiway.Bridge.Throttle",
+        "import": "Haiway.Bridge.ThrottleEndToEnd", "open": "Haiway Haiway.MiniPy Haiway.Bridge.Throttle",
         "defs": {
             name: Target("src/haiway/helpers/throttling.py", "_AsyncThrottle", "__call__", ["args", "kwargs"],
                          {"_entries": 1, "_limit": 2, "_period": 3}, {("self", "_function"): (204, ["$args", "$kwargs"])},
@@ -314,6 +323,8 @@ GROUPS = {
              "  · have hfull' : ¬ ((limit : Int) ≤ (es.length : Int)) := by omega\n    throttle_eval"),
             ("throttle_refines", ["gPre", "gStep", "gPost", "gTail"], "CriticalRefines (assemble gPre gStep gPost gTail)",
              "exact critical_of_parts throttle_pre throttle_step throttle_post throttle_tail"),
+            ("throttle_c15", ["gPre", "gStep", "gPost", "gTail"], "ArrivalProps (assemble gPre gStep gPost gTail)",
+             "exact arrivalProps_of_refines throttle_refines"),
         ],
     },
     "stateobj": {
